@@ -6,6 +6,14 @@ props=[json.loads(l) for l in open('/verif/properties.jsonl')]
 listed=set(l.split()[0] for l in subprocess.run(['/verif/bin/vischeck','-list'],capture_output=True,text=True).stdout.splitlines() if l.strip())
 TECH="static analysis over go/types + go/ssa of /repo's current tree: "
 CLAIMED={
+ 'C01':("audited-return set (value identity with the argument of Sizer.Check on its ok edge), client-sink check, single-writer wiring of the limit, shape of the audit comparison",
+        "Decides the bound itself for every size, template, content and history: every page string handed out is the very value that passed the final size audit (nothing concatenated after it), the audit compares the byte length with the configured field, and the limit is wired from Config.OutputSize into every reset of the renderer. It does not decide that content which could fit is never refused. One known finding (exit text written unaudited)."),
+ 'C03':("CFG cuts on the INCMP handler (gates, deciding comparison, IndexError edge), who-may-reset, value identity of the recorded input",
+        "Decides the gating clauses of input routing on every path: match recorded before the move, INMATCH only cleared on resume, the move only behind selector==input or the wildcard, fallthrough to the catch node with the invalid-input message, refused 'previous' counts as no match, the recorded input is the client's bytes. One known finding (second match before the next HALT, pinned by TestRunReturn). Transcript equivalence with a reference router is not decided."),
+ 'C07':("field read/write effect sets over the CHA-reachable request path, automatic config/state classification of renderer fields, forward must-write analysis with callee summaries over the resume block",
+        "Decides that nothing outside the persisted snapshot carries information across a request boundary: every live State/Cache field is in the CBOR snapshot (or in a checked exception table), and every request-state field of the unpersisted renderer objects that is read on the run/render path is re-initialised on every path through the resume block. Output equality for all programs additionally needs deterministic external code and is not decided."),
+ 'C08':("classification of CHA-reachable explicit panics, Down/Push-Up/Pop pairing, zone bounds proofs of the page-cursor/menu/input-validation functions, BrowseError handling, cache accounting rules",
+        "Decides the named crash and consistency mechanisms: reachable explicit panics are classified (a new one is reported), stack and cache move in lockstep on every path, browsing out of range is an error (bounds proved), input validation cannot index out of range, accounting rules hold. Implicit panics in the rest of the reachable code are not decided. One known finding (CROAK)."),
  'C04':("dispatch-table extraction, per-method store value classes, who-may-write, must-pass-through on the CFG",
         "Decides for every history, by induction on its steps, that each navigation step applies exactly the documented update: the dispatcher's case table, the movers' store signatures, single-writer and rewind-exit clauses are structural necessary conditions checked on all paths of the SSA. It does not run go-vise; equality with the table over histories is the stated inductive argument, not an enumeration."),
  'C05':("must-pass-through (edge cuts) on handler CFGs, operand identity by value flow, pairing of Down/Push and Up/Pop, zone facts for the empty-value clause",
